@@ -73,7 +73,7 @@ func runEngine(rep *Report) {
 	tw, done := traceWriter()
 	defer done()
 	for i := 0; i < *fN; i++ {
-		if !mine(i) {
+		if !startProgram(i) {
 			continue
 		}
 		ps := progSeed(*fSeed, i)
